@@ -61,6 +61,8 @@ pub struct Case<S: StoredVec<I = usize, T = usize>, G: StoredVec<I = usize, T = 
     ver: Vec<u32>,
     /// C19 reference: the combined version the last successful compute call presented (None = nothing computed yet)
     ref_recorded: Option<Version>,
+    /// C19 reference: the versions of all sources at the last successful compute call
+    ver_at_compute: Option<Vec<u32>>,
     gen_no: u32,
     scratch_no: u32,
     exit: Exit,
@@ -80,7 +82,7 @@ impl<S: StoredVec<I = usize, T = usize>, G: StoredVec<I = usize, T = usize>> Cas
         let n = shape(method).len();
         let src = (0..n).map(|k| open_src::<S>(&db, &format!("s{k}"), 1)).collect();
         let tgt = Some(EagerVec::<G>::forced_import(&db, "t", Version::new(1)).unwrap());
-        Case { _dir: dir, db, method: method.into(), window, from, src, vals: vec![vec![]; n], tgt, ver: vec![1; n], ref_recorded: None, gen_no: 0, scratch_no: 0, exit: Exit::new() }
+        Case { _dir: dir, db, method: method.into(), window, from, src, vals: vec![vec![]; n], tgt, ver: vec![1; n], ref_recorded: None, ver_at_compute: None, gen_no: 0, scratch_no: 0, exit: Exit::new() }
     }
 
     /// append `k` elements to every source, respecting the shape constraints
@@ -247,6 +249,19 @@ impl<S: StoredVec<I = usize, T = usize>, G: StoredVec<I = usize, T = usize>> Cas
             fails.push(format!("C06: `{}` incremental result differs from the from-scratch run: len {} vs {}, first difference at {at}: {:?} vs {:?} (batch capacity {cap_elems}, max_from {max_from})",
                 self.method, inc.len(), scratch.len(), inc.get(at), scratch.get(at)));
         }
+        // C19, every method: when exactly ONE input's version changed since the last successful call (all other inputs as they
+        // were), the combined version cannot be the same — the recorded version must move (and with it everything is recomputed)
+        if out == "ok" {
+            if let Some(prev) = &self.ver_at_compute {
+                let diff: Vec<usize> = (0..self.ver.len().min(prev.len())).filter(|&k| prev[k] != self.ver[k]).collect();
+                if diff.len() == 1 && recorded_after == recorded_before {
+                    let k = diff[0];
+                    fails.push(format!("C19: `{}`: the version of source {k} went from {} to {} (no other input changed) but the recorded version stayed {recorded_after:?}: results computed from the old input are kept",
+                        self.method, prev[k], self.ver[k]));
+                }
+            }
+            self.ver_at_compute = Some(self.ver.clone());
+        }
         // C19: evaluation log of the closure + kept prefix
         if out == "ok" && matches!(self.method.as_str(), "to" | "transform") {
             // the version this call presents: the vector's own version + the dependency's (independent of what the header says)
@@ -331,7 +346,8 @@ fn run_case<S: StoredVec<I = usize, T = usize>, G: StoredVec<I = usize, T = usiz
 
 fn gen_case(seed: u64, case_no: u64, len: u64, c19: bool) -> Vec<String> {
     let mut r = Rng::new(seed.wrapping_mul(1_000_003).wrapping_add(case_no).wrapping_mul(17));
-    let m = if c19 { *r.pick(&["to", "transform"]) } else { METHODS[(case_no as usize / 2) % METHODS.len()] };
+    // C19 stream: the two closure methods (evaluation log) and multi-source methods (every input's version must count)
+    let m = if c19 { *r.pick(&["to", "transform", "to", "transform", "add", "multiply", "transform3", "transform4", "sum_of_others", "max_of_others"]) } else { METHODS[(case_no as usize / 2) % METHODS.len()] };
     let w = *r.pick(&[0usize, 1, 2, 3, 5, 9, 40]);
     // rolling_count with window 0 underflows its counter in checked builds (both the incremental and the
     // from-scratch run panic): outside the comparable domain, recorded in DESIGN.md
